@@ -21,7 +21,7 @@ var Check = &mc.Check{
 	ID:    "C07",
 	Level: "model_checking",
 	Rule: "every string of <=N tokens over {/ . a %2e %2f % \\} (N=8 quick, 10 thorough) and of <=5 (6) tokens over the extended alphabet adding {%2E %252e %2F %5c .. //}, and of <=5 tokens behind paddings of 118..132 and 4090 bytes, " +
-		"fed to URI.Parse(host,target).Path() (host set / unset) and utils.CleanPath; part S: every target of <=3 (4) tokens over {/ pub a .. %2e %09 TAB 0x01 0x7f 0x0b} x {HTTP/1.1, HTTP/1.0, no version} x {Host, no Host} through Engine.Serve with routes /, /pub/*x and NoRoute - the handler that runs is the one the reference path selects and sees that path; non-trivial = targets whose decoded form contains a '..' segment, a '.' segment or an empty segment (the normaliser has to act)",
+		"fed to URI.Parse(host,target).Path() (host set / unset) and utils.CleanPath; part S: every target of <=3 (4) tokens over {/ pub a dir .. %2e %252e %09 TAB 0x01 0x7f 0x0b} x {HTTP/1.1, HTTP/1.0, no version} x {Host, no Host} x {UseRawPath off, on} through Engine.Serve with routes /, /pub/*x, /dir/:n/ and NoRoute - a trailing-slash redirect names the request's own path - the handler that runs is the one the reference path selects and sees that path; non-trivial = targets whose decoded form contains a '..' segment, a '.' segment or an empty segment (the normaliser has to act)",
 	Run:    run,
 	Replay: replay,
 	Assumptions: []string{
@@ -357,7 +357,7 @@ func replay(c *mc.Ctx, raw json.RawMessage) {
 	}
 	var sc SCase
 	if json.Unmarshal(raw, &sc) == nil && sc.Server {
-		newSrvWorker().one(c, sc)
+		newSrvWorker(sc.Raw).one(c, sc)
 		return
 	}
 	var vc VCase
